@@ -11,6 +11,7 @@
 pub struct VSink {
     pub data: Ghost<Seq<u8>>,
     pub flushed: Ghost<int>,
+    pub failed: Ghost<bool>,
 }
 
 pub open spec fn le16(v: u16) -> Seq<u8> { seq![(v & 0xff) as u8, ((v >> 8) & 0xff) as u8] }
@@ -21,54 +22,77 @@ pub open spec fn le32(v: u32) -> Seq<u8> {
 impl VSink {
     pub closed spec fn bytes(&self) -> Seq<u8> { self.data@ }
     pub closed spec fn committed(&self) -> int { self.flushed@ }
+    // some call on this sink has returned Err so far ("the writer failed"): lets a serializer's
+    // contract say that an Err it returns WITHOUT a writer failure has a stated reason
+    pub closed spec fn any_failed(&self) -> bool { self.failed@ }
 
     #[verifier::external_body]
     pub fn write_u8(&mut self, v: u8) -> (r: std::io::Result<()>)
         ensures r is Ok ==> final(self).bytes() == old(self).bytes() + seq![v] && final(self).committed() == old(self).committed(),
+            r is Err ==> final(self).any_failed(),
+            r is Ok ==> final(self).any_failed() == old(self).any_failed(),
     { unimplemented!() }
 
     #[verifier::external_body]
     pub fn write_u16(&mut self, v: u16) -> (r: std::io::Result<()>)
         ensures r is Ok ==> final(self).bytes() == old(self).bytes() + le16(v) && final(self).committed() == old(self).committed(),
+            r is Err ==> final(self).any_failed(),
+            r is Ok ==> final(self).any_failed() == old(self).any_failed(),
     { unimplemented!() }
 
     #[verifier::external_body]
     pub fn write_i16(&mut self, v: i16) -> (r: std::io::Result<()>)
         ensures r is Ok ==> final(self).bytes() == old(self).bytes() + le16(v as u16) && final(self).committed() == old(self).committed(),
+            r is Err ==> final(self).any_failed(),
+            r is Ok ==> final(self).any_failed() == old(self).any_failed(),
     { unimplemented!() }
 
     #[verifier::external_body]
     pub fn write_u32(&mut self, v: u32) -> (r: std::io::Result<()>)
         ensures r is Ok ==> final(self).bytes() == old(self).bytes() + le32(v) && final(self).committed() == old(self).committed(),
+            r is Err ==> final(self).any_failed(),
+            r is Ok ==> final(self).any_failed() == old(self).any_failed(),
     { unimplemented!() }
 
     #[verifier::external_body]
     pub fn write_i32(&mut self, v: i32) -> (r: std::io::Result<()>)
         ensures r is Ok ==> final(self).bytes() == old(self).bytes() + le32(v as u32) && final(self).committed() == old(self).committed(),
+            r is Err ==> final(self).any_failed(),
+            r is Ok ==> final(self).any_failed() == old(self).any_failed(),
     { unimplemented!() }
 
     #[verifier::external_body]
     pub fn write_i8(&mut self, v: i8) -> (r: std::io::Result<()>)
         ensures r is Ok ==> final(self).bytes() == old(self).bytes() + seq![v as u8] && final(self).committed() == old(self).committed(),
+            r is Err ==> final(self).any_failed(),
+            r is Ok ==> final(self).any_failed() == old(self).any_failed(),
     { unimplemented!() }
 
     #[verifier::external_body]
     pub fn write_u64(&mut self, v: u64) -> (r: std::io::Result<()>)
         ensures r is Ok ==> final(self).bytes() == old(self).bytes() + le32((v & 0xffff_ffff) as u32) + le32((v >> 32) as u32) && final(self).committed() == old(self).committed(),
+            r is Err ==> final(self).any_failed(),
+            r is Ok ==> final(self).any_failed() == old(self).any_failed(),
     { unimplemented!() }
 
     #[verifier::external_body]
     pub fn write_all(&mut self, buf: &Vec<u8>) -> (r: std::io::Result<()>)
         ensures r is Ok ==> final(self).bytes() == old(self).bytes() + buf@ && final(self).committed() == old(self).committed(),
+            r is Err ==> final(self).any_failed(),
+            r is Ok ==> final(self).any_failed() == old(self).any_failed(),
     { unimplemented!() }
 
     #[verifier::external_body]
     pub fn write_all16(&mut self, buf: &[u8; 16]) -> (r: std::io::Result<()>)
         ensures r is Ok ==> final(self).bytes() == old(self).bytes() + buf@ && final(self).committed() == old(self).committed(),
+            r is Err ==> final(self).any_failed(),
+            r is Ok ==> final(self).any_failed() == old(self).any_failed(),
     { unimplemented!() }
 
     #[verifier::external_body]
     pub fn flush(&mut self) -> (r: std::io::Result<()>)
         ensures r is Ok ==> final(self).bytes() == old(self).bytes() && final(self).committed() == final(self).bytes().len(),
+            r is Err ==> final(self).any_failed(),
+            r is Ok ==> final(self).any_failed() == old(self).any_failed(),
     { unimplemented!() }
 }
